@@ -65,6 +65,7 @@ pub struct Unit {
     pub outline_contains: Vec<String>,
     pub ghost_fields: Vec<(String, String, String, String, String)>, // struct, feature, name, type, init
     pub ghost_args: Vec<(String, String, String)>, // feature, method, extra argument
+    pub ghost_params: Vec<(String, String)>, // function path, extra (ghost) parameter text
     pub props: Vec<String>,
 }
 
@@ -199,6 +200,7 @@ pub fn parse_unit(text: &str) -> Unit {
             "source-if" => { cur_fn = None; let (f, p) = rest.trim().split_once(' ').unwrap(); u.sources.push((p.trim().to_string(), vec![])); u.source_feature.push(Some(f.to_string())); }
             "refcell-mut" => u.refcell_mut_fns.extend(rest.split_whitespace().map(|s| s.to_string())),
             "ghost-field" => { let v: Vec<&str> = rest.split_whitespace().collect(); u.ghost_fields.push((v[0].into(), v[1].into(), v[2].into(), v[3].into(), v[4..].join(" "))); }
+            "ghost-param" => { let (f, p) = rest.trim().split_once(' ').expect("ghost-param FN PARAM"); u.ghost_params.push((f.to_string(), p.trim().to_string())); }
             "ghost-arg" => { let v: Vec<&str> = rest.split_whitespace().collect(); u.ghost_args.push((v[0].into(), v[1].trim_start_matches("*.").into(), v[2..].join(" "))); }
             "outline-contains" => u.outline_contains.extend(rest.split_whitespace().map(|s| s.to_string())),
             "refcell-mut-unless" => { let mut it = rest.split_whitespace(); let feat = it.next().unwrap().to_string(); for f in it { u.refcell_mut_unless.push((feat.clone(), f.to_string())); } }
